@@ -98,9 +98,28 @@ theorem C04_fire_disarms (w w' : World) (op : Nat) (rest : List K) (info : OpInf
   simp only [hp, Bool.false_eq_true, if_false, if_true] at h
   split at h
   · cases h
-    refine ⟨{ o with evR := false, tstate := .ready, cancelledRep := false }, ?_, rfl, rfl⟩
+    refine ⟨{ o with evR := false, tstate := .ready, cancelledRep := (o.cancelledRep && info.kind != OpKind.timerRep) }, ?_, rfl, rfl⟩
     rw [← hid]
     exact getObj_setObj_self _ o _ (show getObj { w with pending := w.pending - 1 } o.id = some o by rw [hid]; exact hg) rfl
+  · cases h
+
+/-- Only the wrapper of a *repeating* schedule notes the Cancels so far when it starts: a one-shot schedule firing
+(e.g. in a poll nested inside the repeating callback) leaves the mark of an earlier Cancel in place, so the repeating
+schedule still stops (a divergence of an earlier version of this model from `timer.go`, found while deriving the ledger). -/
+theorem C04_oneshot_fire_keeps_cancel_mark (w w' : World) (op : Nat) (rest : List K) (info : OpInfo) (o : Obj)
+    (hop : getOp w op = some info) (ht : info.kind = .timerOnce) (hg : getObj w info.obj = some o)
+    (h : pollDispatch w op rest = some w') :
+    ∃ o', getObj w' info.obj = some o' ∧ o'.cancelledRep = o.cancelledRep := by
+  have hid := getObj_id hg
+  unfold pollDispatch at h
+  simp only [hop, hg, ht, OpKind.isTimer] at h
+  simp only [show (OpKind.timerOnce == OpKind.post) = false from rfl, Bool.false_eq_true, if_false, if_true] at h
+  split at h
+  · cases h
+    refine ⟨{ o with evR := false, tstate := .ready, cancelledRep := (o.cancelledRep && OpKind.timerOnce != OpKind.timerRep) }, ?_, ?_⟩
+    · rw [← hid]
+      exact getObj_setObj_self _ o _ (show getObj { w with pending := w.pending - 1 } o.id = some o by rw [hid]; exact hg) rfl
+    · simp
   · cases h
 
 /-- … and after the callback of a one-shot schedule returns nothing is re-armed. -/
